@@ -127,8 +127,14 @@ func newCompiler(
 	if constsCache == nil {
 		constsCache = make(map[Object]int)
 		for i := range opts.Constants {
-			switch opts.Constants[i].(type) {
-			case Int, Uint, String, Bool, Float, Char, *UndefinedType:
+			switch v := opts.Constants[i].(type) {
+			case Float:
+				// see addConstant, negative zero is not cached.
+				if v == 0 && math.Signbit(float64(v)) {
+					continue
+				}
+				constsCache[opts.Constants[i]] = i
+			case Int, Uint, String, Bool, Char, *UndefinedType:
 				constsCache[opts.Constants[i]] = i
 			}
 		}
@@ -924,6 +930,18 @@ func (ms *moduleStore) addModule(name string, typ, constIndex int) moduleStoreIt
 func (ms *moduleStore) getModule(name string) (moduleStoreItem, bool) {
 	indexes, ok := ms.store[name]
 	return indexes, ok
+}
+
+// clone returns a copy of the store.
+func (ms *moduleStore) clone() moduleStore {
+	cp := moduleStore{count: ms.count}
+	if ms.store != nil {
+		cp.store = make(map[string]moduleStoreItem, len(ms.store))
+		for k, v := range ms.store {
+			cp.store[k] = v
+		}
+	}
+	return cp
 }
 
 func (ms *moduleStore) reset() {
